@@ -184,6 +184,7 @@ func checkNegotiator(c *Ctx, neg *ssa.Function) {
 		return
 	}
 	defaults := map[string]bool{}
+	where := map[string]string{}
 	listed := map[string]bool{}
 	for _, fn := range c.P.LibFns {
 		if !c.InitOnly()[fn] {
@@ -222,6 +223,40 @@ func checkNegotiator(c *Ctx, neg *ssa.Function) {
 			}
 		})
 	}
+	// values that reach the default through a setter (withProtocolVersion(v)): constants at its library call sites
+	for _, fn := range c.P.LibFns {
+		ir.EachInstr(fn, func(_ *ssa.BasicBlock, _ int, in ssa.Instruction) {
+			st, ok := in.(*ssa.Store)
+			if !ok {
+				return
+			}
+			f, _, ok := ir.FieldOf(st.Addr)
+			if !ok || f.Key() != defField {
+				return
+			}
+			p, isParam := st.Val.(*ssa.Parameter)
+			if !isParam {
+				return
+			}
+			idx := -1
+			for i, q := range fn.Params {
+				if q == p {
+					idx = i
+				}
+			}
+			for _, e := range ir.Callers(c.G, fn) {
+				if e.Site == nil || !c.P.IsLib(e.Caller.Func) || idx < 0 || idx >= len(e.Site.Common().Args) {
+					continue
+				}
+				if sv, ok := ir.ConstStr(e.Site.Common().Args[idx]); ok {
+					defaults[sv] = true
+					if where[sv] == "" {
+						where[sv] = fname(e.Caller.Func)
+					}
+				}
+			}
+		})
+	}
 	okDef := len(defaults) > 0
 	var ds []string
 	for d := range defaults {
@@ -233,6 +268,26 @@ func checkNegotiator(c *Ctx, neg *ssa.Function) {
 	sort.Strings(ds)
 	c.R.Check(okDef, "R-version-select", construct+": default is supported", c.Pos(neg.Pos()), sprintf("default %v is in the supported list (%d entries)", ds, len(listed)),
 		sprintf("the default protocol version %v is not a member of the supported-version list: the server can answer a version it does not support", ds))
+	// "otherwise with its own latest version": protocol versions are dates, the latest is the greatest listed one
+	latest := ""
+	for v := range listed {
+		if v > latest {
+			latest = v
+		}
+	}
+	okLatest := latest != ""
+	older := ""
+	for _, d := range ds {
+		if d != latest {
+			okLatest = false
+			older = d
+			if where[d] != "" {
+				older = d + " (set by " + where[d] + ")"
+			}
+		}
+	}
+	c.R.Check(okLatest, "R-version-select", construct+": default is the latest", c.Pos(neg.Pos()), sprintf("every server falls back to %s, the latest supported version", latest),
+		sprintf("a server falls back to protocol version %s although it supports %s: a client that asks for an unknown version is answered with an old version instead of the server's latest, and differently from the other servers", older, latest))
 }
 
 // listElement: v is an element of a slice loaded from a struct field (range or index).
@@ -334,6 +389,21 @@ func c16Caps(c *Ctx) {
 		}
 		deps := pd.ControlDepsTransitive(mu.Block())
 		construct := sprintf("capability %q in %s", k, fname(recompute))
+		// what is advertised under a key is fixed: a constant or a map built here — not a value computed from the
+		// server's mode or configuration (every kind of server, in every mode, advertises the same for the same registry)
+		switch v := ir.Unwrap(mu.Value).(type) {
+		case *ssa.Const, *ssa.MakeMap:
+		default:
+			if f, _, ok := ir.LoadedField(v); ok {
+				c.R.Violate("R-cap-guards", sprintf("content of %q in %s", k, fname(recompute)), c.Pos(mu.Pos()),
+					sprintf("the value advertised under %q is loaded from %s: servers configured differently answer initialize with different capabilities for the same registrations", k, f.Key()))
+			} else if un, ok := v.(*ssa.UnOp); ok && un.Op == token.NOT {
+				if f, _, ok := ir.LoadedField(un.X); ok {
+					c.R.Violate("R-cap-guards", sprintf("content of %q in %s", k, fname(recompute)), c.Pos(mu.Pos()),
+						sprintf("the value advertised under %q is computed from %s: servers in different modes answer initialize with different capabilities for the same registrations", k, f.Key()))
+				}
+			}
+		}
 		switch k {
 		case "tools":
 			found[k] = true
@@ -363,6 +433,11 @@ func c16Caps(c *Ctx) {
 					if lc, ok := lenv.(*ssa.Call); ok {
 						if b, ok := lc.Call.Value.(*ssa.Builtin); ok && b.Name() == "len" {
 							if src, ok := lc.Call.Args[0].(*ssa.Call); ok && readsRegistry(src, reg) {
+								// ... the whole registry, not what a per-caller list filter leaves of it
+								if uc := userCallbackReached(c, src); uc != "" {
+									extra = "the listing runs user code (" + uc + "): what is advertised then depends on who initializes"
+									continue
+								}
 								okGuard = true
 								continue
 							}
@@ -1143,4 +1218,31 @@ func derefs(call *ssa.Call) []ssa.Instruction {
 		}
 	}
 	return out
+}
+
+// userCallbackReached: the call (synchronously) reaches a call of a user-supplied function value (a list filter, a
+// hook): "" if none.
+func userCallbackReached(c *Ctx, call *ssa.Call) string {
+	for _, cal := range ir.Callees(c.G, call) {
+		if !c.P.IsLib(cal) {
+			continue
+		}
+		for f := range c.ReachSync(cal) {
+			if !c.P.IsLib(f) {
+				continue
+			}
+			found := ""
+			ir.EachInstr(f, func(_ *ssa.BasicBlock, _ int, in ssa.Instruction) {
+				if ic, ok := in.(*ssa.Call); ok {
+					if cb := userCallbackCall(c, ic); cb != "" {
+						found = cb + " in " + fname(f)
+					}
+				}
+			})
+			if found != "" {
+				return found
+			}
+		}
+	}
+	return ""
 }
